@@ -46,6 +46,9 @@ THEOREMS = [
     "FaxVerif.C17.success_returns_partial",
     "FaxVerif.C17.success_returns_counterexample",
     "FaxVerif.C17.returns_only_on_success",
+    "FaxVerif.C17.result_is_plan_then_finish",
+    "FaxVerif.C17.pulled_count",
+    "FaxVerif.C17.undecodable_raises",
     "FaxVerif.C17.tempdir_released",
     "FaxVerif.C17.machine",
     "FaxVerif.C17.spec_partial",
